@@ -1,6 +1,7 @@
 """C10 — results do not depend on CPU features, selected backend or build configuration (DESIGN §3.10)."""
 import importlib, json, os, random, subprocess
 import vcore
+import re
 import c2lean_pickers
 
 ID = "C10"
@@ -16,7 +17,7 @@ RULE = ("(1) decoder co-simulation, exhaustive: all 2^18 combinations of the rel
 ASSUMPTIONS = ["assembly implementations (sandy2x: AVX; xmm6 Salsa20: x86-64 baseline) have their ISA requirement stated by hand in tools/c2lean_pickers.py",
                "architectural closure of feature sets (avx512f -> avx2 -> avx -> sse4.1 -> ssse3 -> sse3 -> sse2, aesni/pclmul -> sse2) is a hypothesis of selection soundness",
                "32-bit and big-endian targets are reached only as source paths (noti / portable variants) on this x86-64 host"]
-SOURCES = ["c14", "c16", "c15", "c03", "c04", "c01", "c18"]
+SOURCES = ["c14", "c16", "c15", "c03", "c04", "c01", "c18", "c05", "c06", "c07", "c13"]
 
 
 def configs(tier):
@@ -43,6 +44,9 @@ def gen(ctx, tier, rng):
         finally:
             sub.cleanup()
         ls = [l for l in ls if isinstance(l, str) and not l.startswith("enum.") and not l.startswith("rng.gen") and not l.startswith("alloc.") and not l.startswith("pad ")]
+        # ops on which a recorded known finding (of another property) makes the implementation deviate from the model are left to that property's check
+        kf = [re.compile(f["op_pattern"]) for f in vcore.known_findings() if f.get("status") == "known" and f.get("op_pattern")]
+        ls = [l for l in ls if not any(k.search(l) for k in kf)]
         lines += ls[::step]
         ctx.stats.setdefault("corpus_by_source", {})[name] = len(ls[::step])
     return lines
